@@ -377,7 +377,7 @@ def _c18_runs(tier):
     return r
 
 
-SES_ASSUME = ['operation alphabet of 42 public-API calls (see harness/mc_session.c); audio = excerpts of tests/data/goforward.raw, zeros, and no samples; '
+SES_ASSUME = ['operation alphabet of 43 public-API calls (see harness/mc_session.c); audio = excerpts of tests/data/goforward.raw, zeros, and no samples; '
               'REAL front end and REAL acoustic scorer (no injected scores)',
               'grammar loading, dictionary additions and reinit are only issued between utterances (the documented protocol); every other call is issued in every state',
               'small dictionary (9 words) on model en-us; each history runs in a child forked from one initialised decoder',
@@ -484,12 +484,13 @@ CHECKS = {
         runs={'quick': _ses_runs('C16', _c16_specs('quick')), 'thorough': _ses_runs('C16', _c16_specs('thorough'))},
         budget_s={'quick': 600, 'thorough': 5400},
         coverage=ex_cov,
-        rule='every history up to length 3 (thorough 4) over 16 dictionary-centred operations (new word, alternate, duplicate, repeated '
+        rule='every history up to length 3 (thorough 4) over 17 dictionary-centred operations (4200 generated words in one go, so that the table grows past '
+             'its preallocated entries; new word, alternate, duplicate, repeated '
              'alternate, alternate without base, unknown phone, empty word, empty pronunciation, update 0/1, lookups, grammar loads, an '
              'utterance, reinit) and up to length 2 over all operations; after EVERY operation 11 lookups are compared with a reference '
-             'dictionary, every alternate chain is walked (acyclic, shared base, complete), rejected additions must change nothing, accepted '
-             'words must be usable at once in alignment text and JSGF and report their base spelling',
-        assumptions=SES_ASSUME + ['growth past the 4096 preallocated dictionary entries is not explored'] + TRUST,
+             'dictionary (all 4200 generated words too), every alternate chain is walked (acyclic, shared base, complete), rejected additions must change nothing, accepted '
+             'words must be usable at once in alignment text and JSGF, report their base spelling, and decode exactly like the same word read from a dictionary file',
+        assumptions=SES_ASSUME + TRUST,
     ),
     'C10': dict(
         title='untrusted grammar, dictionary, configuration and text inputs are handled safely',
@@ -743,7 +744,7 @@ MANIFEST_TEXT = {
         text='Bounded exhaustive enumeration of dictionary-centred histories with a reference dictionary checked after every operation, '
              'including internal alternate-chain integrity.',
         design_ref='DESIGN.md section 2, H9 (C16)', technique='bounded exhaustive enumeration of operation histories with a lock-step reference dictionary',
-        note='9 base words, 5 addable spellings; table growth not explored'),
+        note='9 base words, 5 addable spellings, 4200 generated words'),
     'C11': dict(
         text='Every lattice the decoder produces in the bounded exhaustive exploration, including mid-utterance ones, is traversed '
              'completely: graph shape, time consistency, and an exact dynamic program proving that every path spells a path of the input grammar.',
